@@ -17,8 +17,8 @@ PROVED = ("for ALL byte strings: read b = ok a -> rules a (in N, no 32-bit wrap)
           "(frozen description); colours are blue,green,red,alpha in the file and red,green,blue,alpha fields in memory; "
           "not (rules a) -> write a = error, for all representable a; bridging lemmas for record sizes, field offsets, bit-field masks, "
           "the canonical palette header and the CPAL tag measured from the current headers")
-PARTIAL = ("'writing never alters the in-memory object' is trivial in a functional model (C10_pure says the result is a function of "
-           "the argument); it is checked on the real object by the dump-before = dump-after oracle only.")
+PARTIAL = ("'writing never alters the in-memory object' has no content in a functional model (write takes a value); it is checked on "
+           "the real object by the dump-before = dump-after oracle only (also after a refused Write).")
 TRUSTED = ["harness/drv/prt.cpp structural dump (the library has no operator== for ArtFile)"]
 ASSUMPTIONS = ["allocation requests above 1 GiB are refused by the harness allocator (err:alloc); the model has the same cap"]
 
